@@ -2,6 +2,6 @@ SPECIFICATION Spec
 CONSTANTS
   MaxMsgs = 3
   ArmFirst = TRUE
-  StartWaiting = FALSE
+  StartWaiting = TRUE
 INVARIANTS NoLostWakeup InOrder
 CONSTRAINT Emit
